@@ -31,7 +31,7 @@ func newC06Pool() *c06Pool {
 	o := func(m map[string]cty.Value) cty.Value { return cty.ObjectVal(m) }
 	p := &c06Pool{vals: []cty.Value{
 		t(s, n, b),
-		t(l(s), t(cty.StringVal("b"), n)),                       // list and tuple members that unify as lists
+		t(l(s), t(cty.StringVal("b"), n)), // list and tuple members that unify as lists
 		t(cty.MapVal(map[string]cty.Value{"k": s}), o(map[string]cty.Value{"k": s, "j": cty.StringVal("c")})), // map and object members
 		t(t(s, n), t(n, s), n),
 		o(map[string]cty.Value{"a": s, "b": t(n, b)}),
